@@ -38,7 +38,7 @@ type Ctx struct {
 func (c *Ctx) viewOf(f *ssa.Function) *ssa.Function {
 	if c.views == nil {
 		c.views = iview.NewBuilder(func(caller *ssa.Function, call *ssa.Call, callee *ssa.Function) bool {
-			if c.P.Looked[callee] {
+			if c.P.Looked[callee] || nameMatchedHelpers[callee.Name()] {
 				return false // an anchor of some rule: its call must stay visible
 			}
 			if callee.Parent() != nil {
@@ -155,4 +155,16 @@ func (c *Ctx) origFn(fn *ssa.Function) *ssa.Function {
 		}
 	}
 	return fn
+}
+
+// nameMatchedHelpers: unexported functions that some rule recognises by the name of the callee
+// (rather than through a resolved anchor); the inlined views keep calls to them.
+var nameMatchedHelpers = map[string]bool{
+	"check2SequencesDiff": true, "translateCodon": true, "bufferTranslate": true, "pMat": true, "backTrack_SW": true,
+	"appendToSequence": true, "reindex": true, "selectedSites": true, "alignmentToCodes": true, "shift": true,
+	"countMutations": true, "countDiffs": true, "countDiffsWithGaps": true, "countDiffsWithInternalGaps": true,
+	"checkAmbiguities": true, "opt_Dist_F": true, "lk_Dist": true, "dist_F_Brent": true, "seqToindices": true,
+	"matchScore": true, "fillMatrix": true, "fillMatrix_SW": true, "backTrack": true, "initMatrix": true,
+	"alignAgainstRefsAA": true, "alignAgainstRefsNT": true, "sampleSeqBag": true, "rarefySeqBag": true,
+	"probaNt": true, "probaNt2Seqs": true, "geneticCode": true, "seqBagToAlignment": true, "setErr": true,
 }
